@@ -238,7 +238,7 @@ func (d *DFA) SearchAtAnchored(cache *DFACache, haystack []byte, at int) int {
 	// Get ANCHORED start state (requires match to start exactly at 'at')
 	currentState := d.getStartState(cache, haystack, at, true)
 	if currentState == nil {
-		return d.nfaFallback(haystack, at)
+		return d.nfaFallbackAnchored(haystack, at)
 	}
 
 	lastMatch := -1
@@ -271,22 +271,16 @@ func (d *DFA) SearchAtAnchored(cache *DFACache, haystack []byte, at int) int {
 		case InvalidState:
 			currentState = cache.getState(sid)
 			if currentState == nil {
-				return d.nfaFallback(haystack, at)
+				return d.nfaFallbackAnchored(haystack, at)
 			}
 			nextState, err := d.determinize(cache, currentState, b)
 			if err != nil {
 				if isCacheCleared(err) {
-					currentState = d.getStartState(cache, haystack, pos, true)
-					if currentState == nil {
-						return d.nfaFallback(haystack, at)
-					}
-					sid = currentState.id
-					ft = cache.flatTrans
-					ftLen = len(ft)
-					pos--
-					continue
+					// The states of the match in progress are gone with the cache, and an
+					// anchored search cannot restart from a later position: let the NFA decide.
+					return d.nfaFallbackAnchored(haystack, at)
 				}
-				return d.nfaFallback(haystack, at)
+				return d.nfaFallbackAnchored(haystack, at)
 			}
 			if nextState == nil {
 				return lastMatch
@@ -1629,6 +1623,17 @@ func (d *DFA) nfaFallback(haystack []byte, startPos int) int {
 	}
 
 	// PikeVM.SearchAt returns absolute positions
+	return end
+}
+
+// nfaFallbackAnchored is nfaFallback for anchored searches: the match must start at
+// startPos. The leftmost match starts at startPos exactly when an anchored match exists
+// there, and then both have the same (leftmost-first) end.
+func (d *DFA) nfaFallbackAnchored(haystack []byte, startPos int) int {
+	start, end, matched := d.pikevm.SearchAt(haystack, startPos)
+	if !matched || start != startPos {
+		return -1
+	}
 	return end
 }
 
